@@ -212,6 +212,16 @@ int main(void) {
                 if (strcmp(verdict, "ok")) break;
                 ev("frameend\n"); g_inFrame = 0;
                 {   size_t const dr = ZSTD_decompress(back, n, dst, out); if (ZSTD_isError(dr) || dr != n || memcmp(back, src, n)) { snprintf(vbuf, sizeof vbuf, "FAIL round trip: %s", ZSTD_isError(dr) ? ZSTD_getErrorName(dr) : "bytes differ"); verdict = vbuf; } }
+                /* the frame must also decode inside the window its header DECLARES: a streaming decoder limited to exactly that window
+                 * (small pieces, so that no single-pass shortcut applies) - an offset beyond the declared window reads overwritten history */
+                if (!strcmp(verdict, "ok") && out > 18) { ZSTD_frameHeader fh; if (ZSTD_getFrameHeader(&fh, dst, out) == 0 && fh.windowSize >= 1024 && fh.windowSize <= (1u << 27)) {
+                    ZSTD_DCtx* d = ZSTD_createDCtx(); size_t ipos = 0, opos = 0, r = 1; int guard = 0;
+                    ZSTD_DCtx_setMaxWindowSize(d, (size_t)fh.windowSize);
+                    while (ipos < out && !ZSTD_isError(r) && guard++ < 10000000) { ZSTD_inBuffer ib; ZSTD_outBuffer ob; size_t const chunk = out - ipos < 60000 ? out - ipos : 60000;
+                        ib.src = dst + ipos; ib.size = chunk; ib.pos = 0; ob.dst = back + opos; ob.size = (n - opos) < 50000 ? (n - opos) : 50000; ob.pos = 0;
+                        r = ZSTD_decompressStream(d, &ob, &ib); ipos += ib.pos; opos += ob.pos; if (!ZSTD_isError(r) && ib.pos == 0 && ob.pos == 0) break; }
+                    if (ZSTD_isError(r) || opos != n || memcmp(back, src, n)) { snprintf(vbuf, sizeof vbuf, "FAIL round trip inside the declared window (%u bytes): %s", (unsigned)fh.windowSize, ZSTD_isError(r) ? ZSTD_getErrorName(r) : "bytes differ"); verdict = vbuf; }
+                    ZSTD_freeDCtx(d); } }
                 totIn += n; totOut += out; doneFrames++;
             }
             alarm(0);
